@@ -634,6 +634,8 @@ func runC09R34(c *Ctx, r *Rep) {
 		} else {
 			r.bad(key, setFlag.pos, "Close waits for running executions first and only then sets the flag admission tests (%v): an execution admitted while Close waits, or between the wait and the flag, runs concurrently with / after the close callbacks", varNames(lc.flags))
 		}
+	case condWait != nil && readCounter != nil && !waitInCounterLoop(info, lc, cfd):
+		r.bad(key, condWait.pos, "the condition-variable wait is not inside a `for` loop that re-tests the busy counter: after a wake-up Close does not re-check that no execution was admitted in between (a run admitted between the Broadcast and Close re-acquiring the mutex is not waited for)")
 	case condWait != nil && readCounter != nil:
 		if setFlag.sec != 0 && setFlag.sec == condWait.sec && setFlag.sec == readCounter.sec && setFlag.ord > condWait.ord {
 			r.ok(key, setFlag.pos, "flag set in the critical section that observed the counter at zero")
@@ -645,6 +647,50 @@ func runC09R34(c *Ctx, r *Rep) {
 	default:
 		r.bad(key, cfd.Pos(), "Close does not wait for admitted executions (no WaitGroup.Wait and no cond-wait loop on the counter)")
 	}
+}
+
+// waitInCounterLoop: every sync.Cond.Wait in Close sits in a for loop whose condition reads the counter.
+func waitInCounterLoop(info *types.Info, lc *lifecycle, fd *ast.FuncDecl) bool {
+	ok := true
+	var stack []ast.Node
+	ast.Inspect(fd.Body, func(n ast.Node) bool {
+		if n == nil {
+			stack = stack[:len(stack)-1]
+			return true
+		}
+		stack = append(stack, n)
+		call, isCall := n.(*ast.CallExpr)
+		if !isCall {
+			return true
+		}
+		if _, typ, m, is := syncMethod(info, call); !is || typ != "Cond" || m != "Wait" {
+			return true
+		}
+		inLoop := false
+		for i := len(stack) - 2; i >= 0; i-- {
+			if _, isLit := stack[i].(*ast.FuncLit); isLit {
+				break
+			}
+			if f, isFor := stack[i].(*ast.ForStmt); isFor && f.Cond != nil {
+				reads := false
+				ast.Inspect(f.Cond, func(m ast.Node) bool {
+					if e, isE := m.(ast.Expr); isE && fieldOf(info, e, lc.ctxType) == lc.counter {
+						reads = true
+					}
+					return true
+				})
+				if reads {
+					inLoop = true
+				}
+				break
+			}
+		}
+		if !inLoop {
+			ok = false
+		}
+		return true
+	})
+	return ok
 }
 
 func runC09R5(c *Ctx, r *Rep) {
